@@ -14,7 +14,7 @@ import (
 func init() {
 	register(&propDef{
 		id: "C06", level: "other", run: runC06,
-		explanation: "The statement (field-for-field equality after Encode then Decode) is value-level and is NOT decided. Decided are structural necessary conditions that tie the two halves together and are claimed nowhere else: (R1) every definition the encoder can emit for a field of a hosted message (base type = profile base, size = base size x profile length, or the profile length for strings) lies in the exactly computed accepted set of the decoder's validator for that very profile row, so decoding Encode's output cannot be rejected at a definition; (R2) the per-kind conversions are inverse shapes: UTC time encodeTime/decodeDateTime, local time (encoder adds the zone offset of the value, decoder builds the zone from local minus UTC and returns the UTC instant in it), coordinates (encoder writes the stored semicircles, decoder passes the 32-bit value through the coordinate constructor, whose accepted set C17 decides exactly); (R3) strings: the encoder clamps to size-1 bytes and zero-fills, the decoder scans to the first NUL within the size and sets the prefix; (R4) arrays: the encoder pads with the base type's invalid value from the table that C15 checks, the decoder yields size/element-size elements; (R5) unset fields: the decoder starts every record from a fresh all-invalid message (run here) and the encoder omits fields equal to the all-invalid twin (C07-R3). What is left undecided is exactly the behaviour: that the values are equal. Added: every multi-byte write of the record writers goes through encoder.arch (C06-R2-byte-order), and the list whose elements are written is the file's own list indexed 0,1,2,... (C06-R5-list-order). Run as premises: the decoder's arm table (C02-R2-arm-table) and C18's slice/guard rules. Also run here: the decoder's scratch-buffer discipline (C02-R7-scratch-escape: a decoded value owns its bytes) and the routers' shape (C03-2-*: a routed message is appended to its own list or overwrites its own slot, nothing else), premises of 'same messages, same order, same values'.",
+		explanation: "The statement (field-for-field equality after Encode then Decode) is value-level and is NOT decided. Decided are structural necessary conditions that tie the two halves together and are claimed nowhere else: (R1) every definition the encoder can emit for a field of a hosted message (base type = profile base, size = base size x profile length, or the profile length for strings) lies in the exactly computed accepted set of the decoder's validator for that very profile row, so decoding Encode's output cannot be rejected at a definition; (R2) the per-kind conversions are inverse shapes: UTC time encodeTime/decodeDateTime, local time (encoder adds the zone offset of the value, decoder builds the zone from local minus UTC and returns the UTC instant in it), coordinates (encoder writes the stored semicircles, decoder passes the 32-bit value through the coordinate constructor, whose accepted set C17 decides exactly); (R3) strings: the encoder clamps to size-1 bytes and zero-fills, the decoder scans to the first NUL within the size and sets the prefix; (R4) arrays: the encoder pads with the base type's invalid value from the table that C15 checks, the decoder yields size/element-size elements; (R5) unset fields: the decoder starts every record from a fresh all-invalid message (run here) and the encoder omits fields equal to the all-invalid twin (C07-R3). What is left undecided is exactly the behaviour: that the values are equal. Added: every multi-byte write of the record writers goes through encoder.arch (C06-R2-byte-order), and the list whose elements are written is the file's own list indexed 0,1,2,... (C06-R5-list-order). Run as premises: the decoder's arm table (C02-R2-arm-table) and C18's slice/guard rules. Also run here: the decoder's scratch-buffer discipline (C02-R7-scratch-escape: a decoded value owns its bytes) and the routers' shape (C03-2-*: a routed message is appended to its own list or overwrites its own slot, nothing else), premises of 'same messages, same order, same values'. (R6-private-buffer) the staging buffer Encode writes out is a fresh local of the call.",
 		trusted:     []string{"exact folding of validateFieldDef", "time.Time Zone/In/FixedZone semantics", "C15 and C17 results"},
 	})
 }
@@ -45,6 +45,8 @@ func runC06(c *Ctx, r *Report) {
 	r.only = map[string]bool{"C03-2-router": true, "C03-2-arm": true, "C03-2-bijection": true, "C03-2-default": true}
 	runC03(c, r)
 	r.only = nil
+	// what Encode hands to the writer is this call's bytes only: the staging buffer is a fresh local
+	encodePrivateBuffer(c, r, "C06-R6-private-buffer")
 	encoderByteOrder(c, r, "C06-R2-byte-order")
 	ev := newEvaluator(c)
 	hosted := c.hostedMessages()
